@@ -288,8 +288,10 @@ package app
 //@   ensures escalation: isRunningState(st0) && !isDefinedStr(sp.ShutDownCommand) && stops() > old(stops()) + 1 ==> stops() == old(stops()) + 2 && sp.ShutDownTimeout != 0 && stopSig(old(stops()) + 1) == 9 && deadlineHit(p.waitForStoppedCtx) && timeoutOf(p.waitForStoppedCtx) == sp.ShutDownTimeout * 1000000000
 //@   ensures unlocked(p)
 
+//@ ghost failedShutDowns() int
 //@ func (p *Process) shutDown
 //@   requires procWF(p) && unlocked(p)
+//@   sets failedShutDowns() := failedShutDowns() + ite(result != nil, 1, 0)
 //@   ensures cancelled(p.procRunCtx) && unlocked(p) && abool(p.isStopped) == old(abool(p.isStopped))
 //@   ensures flags-kept: monotone("abool")
 //@ func (p *Process) internalStop
@@ -523,12 +525,14 @@ package app
 //@   requires wf: listWF(shutdownOrder)
 //@   requires runnerwf: runnerWF(p)
 //@   ensures stop-requested: !p.isOrderedShutDown ==> (forall i int {shutdownOrder[i]} :: 0 <= i && i < len(shutdownOrder) ==> cancelled(shutdownOrder[i].procRunCtx))
+//@   ensures waiter-unless-stop-failed: !p.isOrderedShutDown ==> spawned(fntag("(*app.ProjectRunner).shutDownAndWait$1")) - old(spawned(fntag("(*app.ProjectRunner).shutDownAndWait$1"))) == len(shutdownOrder) - (failedShutDowns() - old(failedShutDowns()))
 //@   ensures flags-kept: monotone("abool")
 //@   ensures locks: held(p.runProcMutex) && (forall m ref :: m != addr(p.runProcMutex) ==> !held(m))
 //@   after (*app.Process).shutDown assert stopped-so-far: forall j int {shutdownOrder[j]} :: 0 <= j && j <= idx + 1 ==> cancelled(shutdownOrder[j].procRunCtx)
 //@   loop 1 invariant idx >= -1 && held(p.runProcMutex) && (forall m ref :: m != addr(p.runProcMutex) ==> !held(m))
 //@   loop 1 invariant forall j int {shutdownOrder[j]} :: 0 <= j && j <= idx ==> cancelled(shutdownOrder[j].procRunCtx)
 //@   loop 1 invariant monotone("abool")
+//@   loop 1 invariant waiters: idx < len(shutdownOrder) && spawned(fntag("(*app.ProjectRunner).shutDownAndWait$1")) - old(spawned(fntag("(*app.ProjectRunner).shutDownAndWait$1"))) == idx + 1 - (failedShutDowns() - old(failedShutDowns()))
 // the waiter spawned per stopped process returns only after that process is done
 //@ func (p *ProjectRunner) shutDownAndWait$1
 //@   requires !held(pr.Mutex) && !held(pr.confMtx)
@@ -629,6 +633,7 @@ package app
 // flagged not-to-be-restarted and its stop is requested
 //@ func (p *ProjectRunner) StopProcess
 //@   requires noLocks() && runnerWF(p)
+//@   ensures stays-registered: unchangedOld("MapDom.Str.ptr.app.Process") && unchangedOld("MapVal.Str.ptr.app.Process")
 //@   ensures refused: !old(name in p.runningProcesses) ==> result != nil && stops() == old(stops()) && runs() == old(runs()) && kept("abool")
 //@   ensures stopped: old(name in p.runningProcesses) ==> abool(old(p.runningProcesses[name]).isStopped) && cancelled(old(p.runningProcesses[name]).procRunCtx)
 //@   ensures nolocks: noLocks()
@@ -697,6 +702,7 @@ package app
 //@   ensures name in p.processLogs && fresh(p.processLogs[name]) && bufWF(p.processLogs[name]) && len(p.processLogs[name].buffer) == 0
 //@   assigns p.processLogs[name]
 //@ func (p *ProjectRunner) addProcessAndRun
+//@   sets replicasAdded() := replicasAdded() + 1
 //@   requires noLocks() && runnerWF(p) && p.processStates != nil && p.processLogs != nil && p.project.Processes != nil && p.project.LogLength >= 0
 //@   requires no-live-instance: !(proc.ReplicaName in p.runningProcesses) || p.runningProcesses[proc.ReplicaName].done
 //@   ensures own-state: proc.ReplicaName in p.processStates && fresh(p.processStates[proc.ReplicaName]) && p.processStates[proc.ReplicaName].Restarts == 0 && p.processStates[proc.ReplicaName].ExitCode == 0
@@ -709,7 +715,12 @@ package app
 
 // Scale-up: the i-th added replica is numbered origScale+i, carries the new replica count, is named after both,
 // is rendered for its own number, and is added (own state, own log, launched) exactly once.
+// every added replica is decoded from the definition by a parse of its own (so replicas added by one request do not
+// share the probe / vars objects the decoder allocates)
+//@ ghost replicasAdded() int
 //@ func (p *ProjectRunner) scaleUpProcess
+//@   ensures own-parse-per-added-replica: jsonParses() - old(jsonParses()) >= replicasAdded() - old(replicasAdded())
+//@   loop 1 invariant parses: jsonParses() - old(jsonParses()) >= replicasAdded() - old(replicasAdded()) && jsonParses() - old(jsonParses()) == i
 //@   requires noLocks() && runnerWF(p) && p.processStates != nil && p.processLogs != nil && p.project.Processes != nil && p.project.LogLength >= 0 && toAdd >= 0
 //@   requires counts: origScale >= 1 && scale == origScale + toAdd
 //@   requires count-is-current: origScale == lastReplicaCount()
@@ -763,6 +774,7 @@ package app
 //@   ensures stopped: old(name in p.runningProcesses) ==> abool(old(p.runningProcesses[name]).isStopped) && cancelled(old(p.runningProcesses[name]).procRunCtx)
 //@   ensures ended: old(name in p.runningProcesses) && result == nil ==> old(p.runningProcesses[name]).done
 //@   ensures others-config: forall k string :: k != name ==> (k in p.project.Processes <==> old(k in p.project.Processes)) && p.project.Processes[k] == old(p.project.Processes[k])
+//@   ensures dependency-maps-untouched: unchangedOld("MapDom.Str.types.ProcessDependency")
 //@   ensures nolocks: noLocks()
 
 // the number of replicas currently configured under a process name; at least one if any replica carries the name
@@ -874,6 +886,7 @@ package app
 //@ func (p *ProjectRunner) UpdateProcess
 //@   requires noLocks() && runnerWF(p) && updated != nil && p.project.ShellConfig != nil && p.processStates != nil && p.processLogs != nil && p.project.Processes != nil && p.project.LogLength >= 0
 //@   ensures unknown: !old(updated.ReplicaName in p.project.Processes) ==> result != nil && spawned(fntag("(*app.ProjectRunner).runProcess$1")) == old(spawned(fntag("(*app.ProjectRunner).runProcess$1"))) && stops() == old(stops()) && runs() == old(runs()) && kept("abool")
+//@   ensures wf: noLocks() && runnerWF(p) && monotone("comparedCfg")
 //@   ensures removed-first: result == nil && old(updated.ReplicaName in p.runningProcesses) && spawned(fntag("(*app.ProjectRunner).runProcess$1")) > old(spawned(fntag("(*app.ProjectRunner).runProcess$1"))) ==> abool(old(p.runningProcesses[updated.ReplicaName]).isStopped) && old(p.runningProcesses[updated.ReplicaName]).done
 
 // ---------- C10: probe outcomes ----------
@@ -941,3 +954,20 @@ package app
 //@ func (p *ProjectRunner) shutDownInOrder$1$1
 //@   requires !held(pr.Mutex) && !held(pr.confMtx)
 //@   ensures pr.done
+
+// C14: whether a process that exists in both configurations is up to date is decided by the field-by-field
+// comparison, for every such process of the incoming configuration (no shortcut classifies one as unchanged).
+//@ define allCompared(p *ProjectRunner, project *types.Project) bool = forall n string :: old(n in project.Processes) && old(n in p.project.Processes) ==> comparedCfg(old(project.Processes[n].ReplicaName))
+//@ func (p *ProjectRunner) UpdateProject
+//@   requires noLocks() && runnerWF(p) && project != nil && p.project != project && p.project.Processes != project.Processes
+//@   requires p.project.ShellConfig != nil && p.processStates != nil && p.processLogs != nil && p.project.Processes != nil && p.project.LogLength >= 0
+//@   ensures every-existing-process-compared: allCompared(p, project)
+//@   loop 1 invariant unchangedOld("MapDom.Str.types.ProcessConfig") && unchangedOld("MapVal.Str.types.ProcessConfig") && monotone("comparedCfg") && p.project == old(p.project) && project.Processes == old(project.Processes) && p.project.Processes == old(p.project.Processes)
+//@   loop 1 invariant forall n string :: seen(n) && n in project.Processes && n in p.project.Processes ==> comparedCfg(project.Processes[n].ReplicaName)
+//@   loop 2 invariant allCompared(p, project) && monotone("comparedCfg")
+//@   loop 3 invariant allCompared(p, project) && monotone("comparedCfg")
+//@   loop 3 invariant noLocks() && runnerWF(p) && p.project == old(p.project) && p.project.ShellConfig != nil && p.processStates != nil && p.processLogs != nil && p.project.Processes != nil && p.project.LogLength >= 0
+//@   loop 4 invariant allCompared(p, project) && monotone("comparedCfg")
+//@   loop 4 invariant noLocks() && runnerWF(p) && p.project == old(p.project) && p.project.ShellConfig != nil && p.processStates != nil && p.processLogs != nil && p.project.Processes != nil && p.project.LogLength >= 0
+//@   loop 5 invariant allCompared(p, project) && monotone("comparedCfg")
+//@   loop 5 invariant noLocks() && runnerWF(p) && p.project == old(p.project) && p.project.ShellConfig != nil && p.processStates != nil && p.processLogs != nil && p.project.Processes != nil && p.project.LogLength >= 0
